@@ -9,6 +9,7 @@ from vivarium.core.process import Process
 from vmc import framework as fw
 from vmc import probes, worlds
 from vmc import structural as st
+from vmc import agents
 from vmc.probes import MonitoredEngine
 
 ID = 'C10'
@@ -27,7 +28,11 @@ RULE = (
     'holds the same dictionaries; (iii) a new engine built from the '
     'published composite and the current state continues with the same '
     'rows as the original. A case is one (history, issuer, timesteps, '
-    'listing order).')
+    'listing order). Agents family (vmc.agents): the same operations '
+    'issued by a controller process / step INSIDE the compartments (self-'
+    'division with copied or fresh processes, self-deletion, self-move, '
+    'operations on siblings), growth timesteps 1 and 2, both listing '
+    'orders; same oracles.')
 ASSUMPTIONS = [
     'steps are idempotent set-derivations, so the extra constructor phase '
     'of the rebuilt engine is unobservable',
@@ -220,6 +225,9 @@ def _moved_in(before, after, cid):
 def run_history(job, acc):
     if job[0] == 'bare':
         run_bare_move(job, acc)
+        return
+    if job[0] == 'agents':
+        agents.judge(job[1:], acc, 'C10')
         return
     init_i, history, issuer, kind, ts_pair, op_first = job
     init = INITS[init_i]
@@ -528,6 +536,8 @@ def jobs(ctx):
             for issuer in ('step', 'process'):
                 out.append(('bare', tick, ts, issuer))
     depth = BOUNDS[ctx.tier]['depth']
+    # operations issued from inside the compartments (vmc.agents)
+    out += [('agents',) + j for j in agents.jobs(depth)]
     for init_i, init in enumerate(INITS):
         for issuer in ('step', 'process'):
             for kind in ('full', 'proc', 'nested'):
@@ -561,6 +571,8 @@ def replay(case):
             else x
     if case.get('special') == 'bare-move':
         run_bare_move(tup(case['job']), acc)
+    elif case.get('family') == 'agents':
+        agents.judge(tup(case['job']), acc, 'C10')
     else:
         run_history((case['init'], tup(case['history']), case['issuer'],
                      case['kind'], tup(case['ts']), case['op_first']), acc)
